@@ -1,7 +1,7 @@
 """Per-property configuration of /verif/check."""
 
 PROPS = {}
-HOOK_COMMITS = ['46951c9']
+HOOK_COMMITS = ['46951c9', 'b770325']
 # properties without a registered check yet (kept current; the aim is an empty list)
 NOT_APPLICABLE = {("C%02d" % i): "check under construction in this session; not yet claimed" for i in range(1, 21)}
 
